@@ -31,6 +31,19 @@ pub trait VIdSet: Sized {
     fn is_empty(&self) -> (r: bool) ensures r == (forall|x: u32| !self.ids().contains(x));
     fn len(&self) -> (r: usize) ensures (r == 0) == (forall|x: u32| !self.ids().contains(x));
 }
+// evmap write handle for the shared lifecycle table (`lcs_w`): an update becomes visible to the readers with the next refresh
+pub trait VLcTable: Sized {
+    spec fn pending(&self) -> Set<u32>;
+    spec fn visible(&self) -> Set<u32>;
+    fn vx_update(&mut self, id: u32)
+        ensures final(self).pending() == old(self).pending().insert(id), final(self).visible() == old(self).visible();
+    fn refresh(&mut self)
+        ensures final(self).visible() == old(self).visible().union(old(self).pending()), final(self).pending() == old(self).pending();
+}
+// K: the lifecycle of every queued message is still buffered or already visible in the table
+pub open spec fn queued_known<Q: VQueue, L: VIdSet, T: VLcTable>(lcs: &L, q: &Q, t: &T) -> bool {
+    forall|i: int| 0 <= i < q.q().len() ==> lcs.ids().contains((#[trigger] q.q()[i]).lifecycle) || t.visible().contains(q.q()[i].lifecycle)
+}
 // J: nothing is queued unless some lifecycle is still buffered (what makes the direct send at the end of the loop body safe)
 pub open spec fn queue_inv<Q: VQueue, L: VIdSet>(lcs: &L, q: &Q) -> bool {
     (forall|x: u32| !lcs.ids().contains(x)) ==> q.q().len() == 0
@@ -66,10 +79,9 @@ pub open spec fn queue_inv<Q: VQueue, L: VIdSet>(lcs: &L, q: &Q) -> bool {
 // R2: a buffered lifecycle is confirmed: it leaves buffered_lcs (publication to the lifecycle table cut, see C06), then the queue
 // is pruned from the front up to the first message of a lifecycle that is still buffered
 //@ extract src/lifecycle/mod.rs region `buffered_lcs.remove(&lc.id);` .. `$end` in fn parse_lifecycles_buffered_from_stream
-//@   sig pub fn confirm_and_prune<Q: VQueue, L: VIdSet, S: VSink>(lc_id: u32, buffered_lcs: &mut L, buffered_msgs: &mut Q, outflow: &mut S)
+//@   sig pub fn confirm_and_prune<Q: VQueue, L: VIdSet, S: VSink, T: VLcTable>(lc_id: u32, buffered_lcs: &mut L, buffered_msgs: &mut Q, outflow: &mut S, lcs_w: &mut T)
 //@   sub R12 `lc.id` => `lc_id` *
-//@   cut R11 `lcs_w.update(`
-//@   cut R11 `lcs_w.refresh();`
+//@   sub R12 `lcs_w.update(__)` => `lcs_w.vx_update(lc_id)`
 //@   cut R11 `last_lcw_refresh_index += 1;`
 //@   sub R8 `buffered_msgs[0].lifecycle` => `buffered_msgs.vx_first().lifecycle`
 //@   sub R11 `mark_lc_id_to_refresh(msg_lc, &mut lcs_to_refresh);` => ``
@@ -80,13 +92,23 @@ pub open spec fn queue_inv<Q: VQueue, L: VIdSet>(lcs: &L, q: &Q) -> bool {
 //@|        old(outflow).never_fails() ==> queue_inv(final(buffered_lcs), final(buffered_msgs)), // O:queue.prune.inv (the pruning stops only at a message whose lifecycle is still buffered)
 //@|        final(buffered_lcs).ids() == old(buffered_lcs).ids().remove(lc_id),
 //@|        final(outflow).never_fails() == old(outflow).never_fails(),
+//@|        // C06: every message released here carries a lifecycle that is visible in the shared table when it is released
+//@|        queued_known(old(buffered_lcs), old(buffered_msgs), old(lcs_w)) ==>
+//@|            final(outflow).log().len() >= old(outflow).log().len()
+//@|            && (forall|j: int| old(outflow).log().len() <= j < final(outflow).log().len() ==> final(lcs_w).visible().contains((#[trigger] final(outflow).log()[j]).lifecycle)), // O:publish.before_release
+//@|        queued_known(old(buffered_lcs), old(buffered_msgs), old(lcs_w)) ==> queued_known(final(buffered_lcs), final(buffered_msgs), final(lcs_w)), // O:publish.known_kept
 //@   hint start
 //@|    let ghost all0 = outflow.log() + buffered_msgs.q();
 //@|    let ghost nf = outflow.never_fails();
+//@|    let ghost n0 = outflow.log().len();
+//@|    let ghost kn = queued_known(buffered_lcs, buffered_msgs, lcs_w);
 //@   loop 1
 //@|    invariant
 //@|        outflow.never_fails() == nf,
 //@|        nf ==> outflow.log() + buffered_msgs.q() == all0, // O:queue.prune.inv.fifo
+//@|        outflow.log().len() >= n0,
+//@|        kn ==> lcs_w.visible().contains(prune_lc_id) && queued_known(buffered_lcs, buffered_msgs, lcs_w), // O:publish.inv.known (the table is refreshed before anything is released)
+//@|        kn ==> (forall|j: int| n0 <= j < outflow.log().len() ==> lcs_w.visible().contains((#[trigger] outflow.log()[j]).lifecycle)), // O:publish.inv.released
 //@|    ensures
 //@|        nf ==> queue_inv(buffered_lcs, buffered_msgs), // O:queue.prune.inv.stop (the loop stops only when the queue is empty or its first message belongs to a buffered lifecycle)
 //@|    decreases buffered_msgs.q().len(),
